@@ -3,7 +3,7 @@
    correspondence and by the moved-argument runs of checks/c02.py).  `app g` moves a point, `rot g` a direction. *)
 From Coq Require Import Reals List QArith.
 From OM Require Import Base.Ops Base.Vec3 Base.OpsR Base.Rigid Geom.Kernels Geom.Quadrature
-                       Geom.RigidKernels Geom.RigidDecisions Geom.GaussSums Geom.Assembly Geom.RigidAssembly.
+                       Geom.RigidKernels Geom.Decisions Geom.RigidDecisions Geom.GaussSums Geom.Assembly Geom.RigidAssembly.
 Local Open Scope R_scope.
 
 (* ---- rigid maps -------------------------------------------------------------------------------------------- *)
@@ -220,13 +220,13 @@ Theorem domain_lookup_invariant : forall g p ds k,
 Proof. exact first_domain_rigid. Qed.
 Print Assumptions domain_lookup_invariant.
 
-Theorem dist_point_interface_argmin_invariant : forall g (dist dist' : @RigidDecisions.tri R -> R) ts,
+Theorem dist_point_interface_argmin_invariant : forall g (dist dist' : @Decisions.tri R -> R) ts,
   (forall t, dist' (move_tri g t) = dist t) ->
   argmin_first OpsR (map dist' (map (move_tri g) ts)) = argmin_first OpsR (map dist ts).
 Proof. exact nearest_triangle_rigid. Qed.
 Print Assumptions dist_point_interface_argmin_invariant.
 
-Theorem orientation_repair_probe_independent : forall (oms : list (R * list (@RigidDecisions.tri R))) (inside : V3 -> Prop),
+Theorem orientation_repair_probe_independent : forall (oms : list (R * list (@Decisions.tri R))) (inside : V3 -> Prop),
   (forall p q, inside p -> inside q -> interface_solid_angle OpsR p oms = interface_solid_angle OpsR q oms) ->
   forall (decide : R -> bool) p q, inside p -> inside q ->
   decide (interface_solid_angle OpsR p oms) = decide (interface_solid_angle OpsR q oms).
